@@ -308,7 +308,11 @@ class Table:
         if isinstance(other, self.__class__):
             self_key = self.__metadata_comp_key()
             other_key = other.__metadata_comp_key()
-            return self_key == other_key and _df_elements_all_equal_or_same(self._df, other._df)
+            return (
+                self_key == other_key
+                and len(self._df) == len(other._df)
+                and _df_elements_all_equal_or_same(self._df, other._df)
+            )
             # Had to implement this custom equality checker for DataFrames because,
             # as of pandas 1.1.0, stupid pandas.DataFrame.equals return False when elements have
             # different dtypes e.g. 10 and 10.0 are considered 'not equal'. In StarTable, a number
